@@ -26,6 +26,11 @@ CHECKS = {
         technique='harness-owned cooperative scheduler: enumerated <=2-pre-emption schedules + Hypothesis random schedules; serial-order differential oracle up to trial-id bijection',
         text='2-3 concurrent RPCs (11 kinds) after generated sequential prefixes run as threads under a deterministic scheduler whose scheduling points are every datastore call and every service-lock acquire/release; per (prefix, call set) all schedules with at most two pre-emptions (capped) plus drawn random schedules are executed on RAM and SQL. Each outcome (result class per call, trials handed out by suggest/add-trial, final studies/trials/operations) must equal that of one of the k! serial orders up to a renumbering of the trials created during the run; plus deadlock/livelock detection, unique ids, every operation done. Violations in 3-call sets are attributed to a pair when the pair alone reproduces the clause.',
         note='granularity = datastore calls and service locks (each datastore call is atomic under its own lock); pre-emption bound 2 + random schedules, not all schedules; a defect present in all serial orders is invisible; DeleteStudy racing calls on the same study is a listed known finding and excluded by construction from generated call sets (pinned replays still execute it)'),
+    'C05': dict(
+        category='fault_enumeration',
+        technique='Hypothesis-generated (prefix, victim RPC) x exhaustive enumeration of the victim\'s SQL statement/commit crash points via fork + os._exit; reopen-and-compare oracle',
+        text='For each generated history the victim RPC is executed once per crash point (before/after every non-SELECT statement, before every commit, and after the RPC returned) in a forked child that dies with os._exit at that point; a fresh engine + VizierServicer reopens the SQLite file and the check compares with the crash-free pre/post snapshots: single-resource victims are all-or-nothing, acknowledged data is still there, every row deserialises, no orphan trial/operation rows, unique ids, legal states, and suggest (same and new worker) + complete still work. Crash points are enumerated exhaustively per history; histories are sampled.',
+        note='crash = process death at a statement/commit boundary seen through SQLAlchemy events; durability of a single SQLite commit and torn pages are trusted to SQLite; the operation abandoned by a crash inside SuggestTrials is a listed known finding'),
     'C06': dict(
         category='fault_enumeration',
         technique='Hypothesis-generated fault plans (exception type x position x delivery count) x follow-up histories; bounded-liveness oracle',
